@@ -82,6 +82,8 @@ func ExecPlan(p *Plan, pool *Pool, verbose bool) (t *core.Trace) {
 	w.Run()
 	if p.Profile == "compose" {
 		t.Samples = append(t.Samples, describeComposePlan(p))
+	} else if p.Profile == "hostile" {
+		t.Samples = append(t.Samples, map[string]any{"seed": p.Seed, "profile": p.Profile, "steps": p.Steps})
 	} else if p.Profile == "longform" {
 		t.Samples = append(t.Samples, describeLongFormPlan(p))
 	} else if len(p.Steps) > 0 && p.Steps[0].Op == SEnum {
